@@ -7037,8 +7037,16 @@ impl<'a> Tyck<'a> for TyEnvT<su::TermId> {
                         Lub::lub_k(vtype, ann_kd, tycker)?
                     }
                 };
-                let mut arms_vec = im::Vector::new();
+                let mut arms_vec = im::Vector::<(CtorName, ss::TypeId)>::new();
                 for su::DataArm { name, param } in arms {
+                    // terms, patterns, coverage and type equality all look a constructor up by
+                    // name: a second declaration of the name could never be told from the first
+                    if arms_vec.iter().any(|(declared, _)| *declared == name) {
+                        tycker.err_k(
+                            TyckError::DuplicateDataConstructor(name.clone()),
+                            std::panic::Location::caller(),
+                        )?
+                    }
                     let param = self.mk(param).tyck_k(tycker, Action::ana(vtype.into()))?;
                     let TermAnnId::Type(ty, _kd) = param else {
                         tycker.err_k(TyckError::SortMismatch, std::panic::Location::caller())?
@@ -7082,8 +7090,14 @@ impl<'a> Tyck<'a> for TyEnvT<su::TermId> {
                         Lub::lub_k(ctype, ann_kd, tycker)?
                     }
                 };
-                let mut arms_vec = im::Vector::new();
+                let mut arms_vec = im::Vector::<(DtorName, ss::TypeId)>::new();
                 for su::CoDataArm { name, out } in arms {
+                    if arms_vec.iter().any(|(declared, _)| *declared == name) {
+                        tycker.err_k(
+                            TyckError::DuplicateCoDataDestructor(name.clone()),
+                            std::panic::Location::caller(),
+                        )?
+                    }
                     let out = self.mk(out).tyck_k(tycker, Action::ana(ctype.into()))?;
                     let TermAnnId::Type(ty, _kd) = out else {
                         tycker.err_k(TyckError::SortMismatch, std::panic::Location::caller())?
